@@ -11,6 +11,7 @@ import pickle
 from vlib import common, refmodel
 
 LEVEL = 'exploration'
+_KEEP = []
 
 LEAVES = [
     'a', 'b', 'x', 'y', '0', '1', '', ' ', 'é', 'ß∀', '"s t"', '|q r|', '(',
@@ -255,12 +256,17 @@ def check_tree(ns, res, r, t, pool):
         res.violation('deepcopy-shares-ids',
                       'deepcopy re-uses an id or repeats one', {'tree': t})
     # in-process pickle round trip
-    p = pickle.loads(pickle.dumps(n))
-    if refmodel.to_nested(p) != t or ids_of(p) != ids_of(n) or hash(
-            p) != hash(n) or hashes_of(p) != hashes_of(n) or not (p == n):
-        res.violation('pickle-roundtrip',
-                      'pickle round trip changed structure/ids/hash',
-                      {'tree': t})
+    try:
+        p = pickle.loads(pickle.dumps(n))
+        bad = (refmodel.to_nested(p) != t or ids_of(p) != ids_of(n)
+               or hash(p) != hash(n) or hashes_of(p) != hashes_of(n)
+               or not (p == n))
+        why = 'pickle round trip changed structure/ids/hash'
+    except Exception as e:  # noqa
+        bad = True
+        why = f'pickle round trip raised {type(e).__name__}: {e}'
+    if bad:
+        res.violation('pickle-roundtrip', why, {'tree': t})
     res.count('pickle_roundtrips')
     # traversals against the model; list input and Node input
     if isinstance(t, list):
@@ -396,7 +402,10 @@ def shard(args):
             res.cmax('max_depth', depth)
             if isinstance(t, list):
                 res.add_distinct(common.digest(repr(t)))
-            if i % 5 == 0:
+            if i % 5 == 0 and not res.vkeys.get('pickle-roundtrip') and \
+                    not res.vkeys.get('pool-transfer-failed'):
+                # (if pickling already fails in-process, pushing trees
+                # through the pool only kills workers and costs time-outs)
                 pending.append((t, n, pool.apply_async(_worker_echo, (n, ))))
             for _ in range(4):
                 tb, kind = perturb(r, t)
@@ -411,10 +420,20 @@ def shard(args):
         if args['shard'] == 0:
             for n in list(range(0, 600)) + [1000, 4095, 4096, 4097, 99999]:
                 check_binary_search(ns, res, n)
-        if args['shard'] == 0:
+        if args['shard'] == 0 and not res.vkeys.get('pickle-roundtrip') \
+                and not res.vkeys.get('pool-transfer-failed'):
             check_deep(ns, res, pool)
     finally:
-        pool.terminate()
+        # Pool.terminate() can block for ever once a worker has died while
+        # holding a queue lock (which broken pickling provokes): keep the
+        # pool object alive so that its finalizer never runs, kill the
+        # workers; vlib.shardmain leaves with os._exit()
+        _KEEP.append(pool)
+        for p in list(getattr(pool, '_pool', [])):
+            try:
+                p.kill()
+            except Exception:  # noqa
+                pass
     return res.to_dict()
 
 
@@ -453,8 +472,10 @@ def check_deep(ns, res, pool):
 
 def drain(res, pending):
     for t, n, fut in pending:
+        if res.vkeys.get('pool-transfer-failed', 0) >= 3:
+            break  # each further failure would cost another time-out
         try:
-            pid, nested, ids, hashes, h, back = fut.get(timeout=120)
+            pid, nested, ids, hashes, h, back = fut.get(timeout=30)
         except Exception as e:  # noqa
             res.violation('pool-transfer-failed',
                           f'sending a tree to a worker failed: '
@@ -495,10 +516,11 @@ def run(ctx):
         'leaf texts are encodable Unicode (lone surrogates cannot come from '
         'a decoded file)'
     ]
-    if ctx.counters.get('pool_roundtrips', 0) == 0:
-        ctx.inconclusive_because('no tree went through the pool')
-    if len(ctx.extra.get('worker_pids', ())) < 2:
-        ctx.inconclusive_because('fewer than 2 worker processes observed')
+    if not ctx.violations:
+        if ctx.counters.get('pool_roundtrips', 0) == 0:
+            ctx.inconclusive_because('no tree went through the pool')
+        if len(ctx.extra.get('worker_pids', ())) < 2:
+            ctx.inconclusive_because('fewer than 2 worker processes observed')
 
 
 def replay(data):
